@@ -171,6 +171,18 @@ def _community_text_ok(text, value):
     return text == '%s:%s' % (hi, lo)
 
 
+def ob_aspath_after_long(a: int, b: int) -> bool:
+    """a short AS_PATH constructed after one of more than 255 octets in the same process round-trips like the first"""
+    asn4 = P['asn4']
+    hi = 2 ** 32 if asn4 else 2 ** 16
+    assume(1 <= a < hi and 1 <= b < hi)
+    big = [(2, [(64000 + i % 1000) for i in range(P.get('n', 130))])]
+    if not roundtrip({'attr': {2: big}}, asn4):
+        return False
+    cover('long')
+    return roundtrip({'attr': {1: 0, 2: [(2, [a, b])], 3: '10.0.0.1'}}, asn4) and roundtrip({'attr': {2: []}}, asn4)
+
+
 def ob_community(a: int, b: int, c: int, d: int) -> bool:
     """P: n communities; entries 0 and 1 symbolic halves (a:b, c:d), others concrete."""
     assume(0 <= a < 65536 and 0 <= b < 65536)
@@ -394,6 +406,8 @@ def obligations(tier, seed):
         if not quick:
             out.append(ob('C06/aspath/asn4=%s/two-long' % asn4, 'ob_aspath',
                           {'asn4': asn4, 'segs': [(2, 100), (1, 100)], 'sympos': [(0, 99), (1, 0)]}, cap=300))
+    for asn4 in (False, True):
+        out.append(ob('C06/aspath/asn4=%s/short-after-long' % asn4, 'ob_aspath_after_long', {'asn4': asn4}, covers=['long']))
     # communities
     out.append(ob('C06/community/n=1', 'ob_community', {'n': 1}, cap=120 if quick else 300))
     dc16, dc32 = digit_classes(16), digit_classes(32)
